@@ -53,10 +53,11 @@ Section Pump.
     intro H. induction n as [|n IH]; simpl; [reflexivity|]. rewrite dfa_run_app, H. exact IH.
   Qed.
 
-  (* the loop *)
-  Lemma pump_split w : dfa_acc m w = true -> length (d_states m) <= length w ->
+  (* the loop, found among the first |Q|+1 states of the run *)
+  Lemma pump_split_short w : dfa_acc m w = true -> length (d_states m) <= length w ->
     exists x y z s, w = x ++ y ++ z /\ y <> [] /\
-      dfa_run m (Some q0) x = Some s /\ dfa_run m (Some s) y = Some s.
+      dfa_run m (Some q0) x = Some s /\ dfa_run m (Some s) y = Some s /\
+      length (x ++ y) <= length (d_states m).
   Proof.
     intros Ha Hl. set (n := length (d_states m)) in *.
     set (l := map (state_at w) (seq 0 (S n))).
@@ -92,6 +93,46 @@ Section Pump.
       rewrite Hy in L. simpl in L. lia.
     - exact Ri.
     - rewrite Efj, dfa_run_app in Rj. fold x in Ri. rewrite Ri in Rj. exact Rj.
+    - rewrite app_length, Lx. rewrite firstn_length_le by lia. fold n. lia.
+  Qed.
+
+  Lemma pump_split w : dfa_acc m w = true -> length (d_states m) <= length w ->
+    exists x y z s, w = x ++ y ++ z /\ y <> [] /\
+      dfa_run m (Some q0) x = Some s /\ dfa_run m (Some s) y = Some s.
+  Proof.
+    intros Ha Hl. destruct (pump_split_short w Ha Hl) as [x [y [z [s [H1 [H2 [H3 [H4 _]]]]]]]].
+    exists x, y, z, s. repeat split; assumption.
+  Qed.
+
+  (* pumping down: cutting the loop out shortens the word by at most |Q| symbols *)
+  Lemma pump_down w : dfa_acc m w = true -> length (d_states m) <= length w ->
+    exists w', dfa_acc m w' = true /\ length w' < length w /\ length w <= length w' + length (d_states m).
+  Proof.
+    intros Ha Hl. destruct (pump_split_short w Ha Hl) as [x [y [z [s [Ew [Hy [Rx [Ry Hxy]]]]]]]].
+    exists (x ++ z). split; [|split].
+    - unfold dfa_acc, dfa_acc_from in Ha |- *. fold q0 in Ha |- *.
+      rewrite Ew in Ha. rewrite !dfa_run_app, Rx, Ry in Ha. rewrite dfa_run_app, Rx. exact Ha.
+    - rewrite Ew, !app_length. destruct y; [congruence|]. simpl. lia.
+    - rewrite Ew, !app_length in *. lia.
+  Qed.
+
+  (* an infinite language has an accepted word in every window of |Q| consecutive lengths *)
+  Lemma window_word : (forall n, exists w, dfa_acc m w = true /\ n < length w) ->
+    forall L, exists w, dfa_acc m w = true /\ L <= length w < L + length (d_states m).
+  Proof.
+    intros Hinf L. destruct (Hinf L) as [w0 [Ha0 Hl0]].
+    assert (Hq : 1 <= length (d_states m)).
+    { destruct (acc_prefix_state w0 0 Ha0 ltac:(lia)) as [s [_ Hs]].
+      destruct (d_states m); [destruct Hs|simpl; lia]. }
+    assert (Hgo : forall k w, length w <= k -> dfa_acc m w = true -> L <= length w ->
+              exists w', dfa_acc m w' = true /\ L <= length w' < L + length (d_states m)).
+    { induction k as [|k IH]; intros w Hk Ha Hl.
+      - exists w. split; [exact Ha|]. lia.
+      - destruct (le_lt_dec (L + length (d_states m)) (length w)) as [Hbig|Hsmall].
+        + destruct (pump_down w Ha ltac:(lia)) as [w' [Ha' [Hlt Hge]]].
+          apply (IH w'); [lia|exact Ha'|lia].
+        + exists w. split; [exact Ha|lia]. }
+    apply (Hgo (length w0) w0); [lia|exact Ha0|lia].
   Qed.
 
   Theorem pump_infinite w : dfa_acc m w = true -> length (d_states m) <= length w ->
